@@ -616,10 +616,24 @@ def oracle_decompose(ctx, sc, mod, src, i, vals):
         if rb[0] != "ok":
             # the whole decoder rejects its own encoder's output: then some component decoder must reject its component
             # (positional shapes only: a dataclass may legitimately reject its own output, e.g. alias keys)
-            cs = [] if t[0] == "data" else [(label, ct, pytype(ct), cwire) for (label, ct, _, cwire) in comps(t, x, wire)]
+            cs = [(label, ct, pytype(ct), cwire) for (label, ct, _, cwire) in comps(t, x, wire, decoding=True)]
+            if t[0] == "data":
+                # a dataclass may legitimately reject its own output (alias keys, forbid_extra_keys): the claim needs every
+                # field's decoding key to be present and no extra-key policy
+                c = sc.cls(t[1])
+                if len(cs) != len(c.fields) or "forbid_extra_keys" in c.extra or not c.fields:
+                    cs = []
             if cs and all(CT is not None for (_, _, CT, _) in cs):
                 rs = [res_key(L.call(lambda CT=CT, cwire=cwire: BasicDecoder(CT, **kw).decode(cwire))) for (_, _, CT, cwire) in cs]
                 ctx.count(("decompose-dec-err", sc.sid, i, repr(v)), n=len(rs) + 1)
+                first_err = next((r for r in rs if r[0] != "ok"), None)
+                if first_err is not None and t[0] != "data" and res_key(rb) != first_err:
+                    # positional shapes evaluate their components in order: the whole decoder fails exactly like the
+                    # first failing component decoder (C15_unpack_compositional_*)
+                    ctx.fail(f"decoder for {L.py_ty(t)} raises {show(res_key(rb))} but its first failing component decoder raises {show(first_err)}",
+                             {"entry": "decompose", "source": src, "root": i, "value": v, "dialect": sc.dialect, "at": "*",
+                              "pack": False, "observed": show(res_key(rb)), "expected": show(first_err)},
+                             {"kind": "decompose"})
                 if all(r[0] == "ok" for r in rs):
                     ctx.fail(f"decoder for {L.py_ty(t)} raises {show(res_key(rb))} on the output of its own encoder although every component "
                              f"decoder accepts its component ({[c[0] for c in cs]})",
